@@ -32,6 +32,7 @@ C15-F1 C15 7e9df0f 82b6cca
 C15-F3 C15 ba0fe32
 C15-F4 C15 7e9df0f
 C15-F5 C15 825370f
+C15-F6 C15 6bbd3e1
 "
 want="$*"
 git -C /repo worktree remove --force $WT 2>/dev/null; git -C /repo worktree add -q --detach $WT HEAD || exit 2
